@@ -413,6 +413,17 @@ func (f *Frame) obligFail(kind string, pos token.Pos, desc string) {
 // ---- calls ----
 
 func (f *Frame) call(x *ssa.Call) AV {
+	if !f.an.logCalls || f.an.quiet > 0 {
+		return f.call1(x, nil)
+	}
+	rec := &CallRec{instr: x, frame: f, state: f.cur}
+	f.an.calls = append(f.an.calls, rec)
+	res := f.call1(x, rec)
+	rec.res = res
+	return res
+}
+
+func (f *Frame) call1(x *ssa.Call, rec *CallRec) AV {
 	f.stateAt[x] = f.cur
 	common := x.Common()
 	resT := x.Type()
@@ -421,7 +432,14 @@ func (f *Frame) call(x *ssa.Call) AV {
 	for i, a := range common.Args {
 		args[i] = f.val(a)
 	}
+	if rec != nil {
+		rec.args = args
+	}
 	if common.IsInvoke() {
+		if rec != nil {
+			rec.method = common.Method.Name()
+			rec.recv = f.val(common.Value)
+		}
 		return f.invoke(x, key, args)
 	}
 	if b, ok := common.Value.(*ssa.Builtin); ok {
@@ -432,6 +450,12 @@ func (f *Frame) call(x *ssa.Call) AV {
 		// dynamic call through a function value
 		if fv, ok := f.val(common.Value).(AFunc); ok {
 			callee = fv.fn
+		}
+	}
+	if rec != nil {
+		rec.callee = callee
+		if callee == nil {
+			rec.dyn = f.val(common.Value)
 		}
 	}
 	if callee == nil {
@@ -596,6 +620,9 @@ func (f *Frame) knownExternal(x *ssa.Call, callee *ssa.Function, args []AV, key 
 			}
 		}
 		return AInt{a: affSym(f.an.u.sym(key, 0, bigNum))}, true
+	case "errors.Is":
+		s := f.an.u.boolSym("errors.Is(" + describeAV(args[0]) + "," + describeAV(args[1]) + ")")
+		return ABool{formAtom(atomEQ(affSym(s), affConst(1)))}, true
 	case "errors.New", "fmt.Errorf":
 		return AIface{val: AOpaque{key, x.Type()}, typ: types.Typ[types.Invalid]}, true
 	}
